@@ -8,10 +8,9 @@ Open Scope N_scope.
 
 (* Every view handed out after a nil error (Ether, IP4, IP6, UDP, TCP, Payload, the two MAC slices) is nil or
    IS the storage of the input from the offset stored in the Frame ([view_at (arr s) off n] = the buffer
-   from [off] on), and ends within the length of the frame.  Outside the recorded short-VLAN class
-   (there Payload() panics: C01 finding parse-vlan-short). *)
+   from [off] on), and ends within the length of the frame. *)
 Theorem C16_views_are_subslices : forall c s f w,
-  wf s -> k_vlan_short (view s) = false -> parse c s = Ok f ->
+  wf s -> parse c s = Ok f ->
   sub_view s (view_off f w) (view_get s f w).
 Proof. exact views_are_subslices. Qed.
 Print Assumptions C16_views_are_subslices.
